@@ -177,6 +177,14 @@ def main(argv=None):
     seen_known = set()
     n_viol = 0
     replay_dir = OUT / "replays" / prop
+    if not args.replay and not args.only and replay_dir.is_dir():
+        import shutil
+
+        shutil.rmtree(replay_dir, ignore_errors=True)  # the directory reflects the last complete run
+        try:
+            replay_dir.parent.rmdir()
+        except OSError:
+            pass
     for v in m["violations"]:
         fk = v.get("finding_key")
         f = known.get((prop, fk)) if fk else None
